@@ -100,6 +100,15 @@ def check(tier):
     from . import c09_corpus
 
     c09_corpus.run(rep, tier)
+    # deviation 1 around natural pickles: every prefix of every variant stepped on both machines
+    from .. import corpus, deviate
+    from .c03 import deviation_bases
+
+    dsyms = alphabet("NONE K1 STR ELIST EDICT ESET ETUP MARK TUPLE T2 LIST DICT FROZENSET APPEND APPENDS SETITEM SETITEMS ADDITEMS POP "
+                     "POP_MARK DUP MEMOIZE BINPUT1 BINGET0 BINGET1 REDUCE NEWOBJ OBJ BUILD BINPERSID".split())
+    plain = [(f"plain[{i}]/{t}", b) for i, v in enumerate(corpus.plain_values("quick")[30::29 if tier == "quick" else 7])
+             for t, b in corpus.pickles_of(v, protocols=(0, 2, 4), unframed=False) if len(b) < 300]
+    deviate.run(PROP, deviation_bases(tier) + plain, dsyms, [(c09_corpus, "step_oracle")], rep)
     rep.assumptions += [
         "reference = CPython pure-Python pickle._Unpickler stepped one opcode at a time; find_class/persistent_load return inert stubs",
         "mutator opcodes enabled only on naturally typed targets (typing discipline, DESIGN §2/E1)",
